@@ -64,7 +64,10 @@ def build_ensemble(plan, run, map_spec, instance=None):
         s.SetEvaluationLimits(plan['limits'][0], plan['limits'][1])
     if plan.get('evalmon'):
         import mystic.monitors as mm
-        s.SetEvaluationMonitor(mm.Monitor())
+        em = mm.Monitor()
+        for k in range(plan.get('evalmon_legacy') or 0):
+            em([0.25 * k - 0.5] * dim, 10.0 + k)
+        s.SetEvaluationMonitor(em)
     if map_spec is not None:
         s.SetMapper(maps.make_map(map_spec))
     return s, peers
@@ -157,6 +160,12 @@ def gen_ensemble_plan(rng, seed, tier, prop):
             plan['termination'] = {'t': 'NCOG', 'kw': {'tolerance': 1e-4, 'generations': 2}}
         plan['constraint'] = None
     plan['evalmon'] = rng.random() < 0.4
+    if plan['evalmon']:
+        # an evaluation monitor that already holds records when it is handed over (legacy samples; a monitor reused from an
+        # earlier run): the members' logs start with them, their counters must not  (drawn from a named sub-stream so that the
+        # rest of the plan is what it was before this option existed)
+        from .env import sub_rng
+        plan['evalmon_legacy'] = sub_rng(seed, 'evalmon_legacy').choice([0, 0, 1, 3, 7])
     plan['nsteps'] = rng.randint(2, 10)
     return plan
 
